@@ -1,0 +1,5 @@
+//go:build !verif
+
+package parser
+
+func verifYield(int, *lexer) int { return 0 }
